@@ -39,7 +39,10 @@ PARTIAL = ("Thread timing is replaced by forced orders (per-query delays, one st
            "ThreadPoolExecutor guarantee that done-callbacks have run when shutdown(wait=True) returns is assumed. A solver kill "
            "during the synchronous stuck-path solve and a Popen failure there are not separate model steps (the first can only "
            "happen after a valid counterexample was recorded, where the verdict is FAIL whatever the stuck count; the second is the "
-           "same uncaught-exception mechanism as the recorded finding).")
+           "same uncaught-exception mechanism as the recorded finding). --cache-solver: the order in which worker threads consult the "
+           "shared core list is forced (one solver thread: strictly in submission order; default threads + delays: all queries started "
+           "first); otherwise the implementation's verdict must be among the model's results over both families of schedules. A model "
+           "refinement (second solver call) together with the cache is covered at function level (X3) but not end to end.")
 ASSUMPTIONS = [
     "done-callbacks of the thread pool futures have completed when ThreadPoolExecutor.shutdown(wait=True) returns (CPython semantics)",
     "list.append from solver threads is atomic (CPython GIL); the verdict chain reads solver_outputs only after the pool has been joined",
@@ -379,20 +382,20 @@ def gen_cases(tier, r):
     cases.append(mk(["panic", "panic", "success"], {0: "unsat_core0", 1: "sat"}, cache=True, threads=1))
     cases.append(mk(["panic", "failflag", "success"], {0: "sat", 1: "unsat_core0"}, cache=True, threads=1))
     cases.append(mk(["failflag", "panic", "panic", "success"], {0: "unsat_nocore", 1: "unsat_core0", 2: "sat_invalid"}, cache=True, threads=1))
-    cases.append(mk(["panic", "panic", "success"], {0: "unsat_core0", 1: "unknown"}, cache=True, threads=1))
     cases.append(mk(["panic", "panic", "success"], {0: "unsat_core0", 1: "crash"}, cache=True, threads=1, ee=True))
     #  - a shared-prefix core: the later queries are answered from the cache (consistent script: they are unsat)
     cases.append(mk(["panic", "failflag", "panic", "success"], {0: "unsat_core1", 1: "unsat", 2: "unsat_core2"}, cache=True, threads=1))
-    cases.append(mk(["panic", "failflag", "success"], {0: "unsat_core2", 1: "unsat_nocore"}, cache=True, threads=1))
     cases.append(mk(["panic", "failflag", "success"], {0: "unsat_core1", 1: "unsat"}, cache=True, delays={"0": 0.7, "1": 0}))
     #  - the stuck-path solve neither reads nor feeds the cache
     cases.append(mk(["panic", "stuck", "failflag", "success"], {0: "unsat_core1", 1: "sat", 2: "unsat"}, cache=True, threads=1))
-    cases.append(mk(["stuck", "panic", "success"], {0: "unsat_core1", 1: "sat"}, cache=True, threads=1))
     #  - a solver that does not honour its own core (outside the theorem's hypothesis; model vs implementation only):
     #    the second query never reaches the solver
     cases.append(mk(["panic", "panic", "success"], {0: "unsat_core1", 1: "sat"}, cache=True, threads=1))
-    cases.append(mk(["panic", "failflag", "success"], {0: "unsat_core2", 1: "unknown"}, cache=True, threads=1))
     if tier != "quick":
+        cases.append(mk(["panic", "panic", "success"], {0: "unsat_core0", 1: "unknown"}, cache=True, threads=1))
+        cases.append(mk(["panic", "failflag", "success"], {0: "unsat_core2", 1: "unsat_nocore"}, cache=True, threads=1))
+        cases.append(mk(["stuck", "panic", "success"], {0: "unsat_core1", 1: "sat"}, cache=True, threads=1))
+        cases.append(mk(["panic", "failflag", "success"], {0: "unsat_core2", 1: "unknown"}, cache=True, threads=1))
         for a, b in itertools.product(["unsat_core0", "unsat_core1", "unsat_core2", "unsat_nocore", "unsat"], ["sat", "sat_invalid", "unknown", "crash", "unsat", "unsat_core0"]):
             cases.append(mk(["panic", "failflag", "success"], {0: a, 1: b}, cache=True, threads=1))
             cases.append(mk(["failflag", "panic", "success"], {0: b, 1: a}, cache=True, threads=1))
